@@ -62,6 +62,23 @@ def singleResponse (ops : List SOp) (fin : Fin) : Bool :=
   (if fin = .ok then (ops.getLast?.map SOp.isSend).getD false || ops.any SOp.isWait
    else !ops.any SOp.isSend)
 
+def SOp.isLocal : SOp → Bool
+  | .setHeader _ | .sendHeader _ | .setTrailer _ => true
+  | _ => false
+
+/-- After its single response the handler only touches header / trailer metadata before it returns. -/
+def localAfterSend : List SOp → Bool
+  | [] => true
+  | .send _ :: rest => rest.all SOp.isLocal
+  | _ :: rest => localAfterSend rest
+
+/-- A client-streaming handler: at most one response (`SendAndClose`), nothing but metadata calls after it
+(the client is waiting for the status by then), and an OK return only with a response (or never, `wait`).
+An ERROR return after the response is allowed: the client is then given the error, not the response. -/
+def singleResponseC (ops : List SOp) (fin : Fin) : Bool :=
+  localAfterSend ops &&
+  (if fin = .ok then ops.any SOp.isSend || ops.any SOp.isWait else true)
+
 /-- The generated handler reads the single request before the service method runs. -/
 def singleRequest : List SOp → Bool
   | .recv :: rest => !rest.any SOp.isRecv
@@ -77,7 +94,7 @@ def conforms (shape : Shape) (ss : List SOp) (fin : Fin) (cs : List COp) : Bool 
   | .unary => singleRequest ss && singleResponse ss fin && cs == invokeScript (firstSend cs)
   | .unaryS => singleRequest ss && singleResponse ss fin && startsWithRequest cs
   | .sstream => singleRequest ss && startsWithRequest cs
-  | .cstream => singleResponse ss fin
+  | .cstream => singleResponseC ss fin
   | .bidi => true
 
 /-- The hypothesis of C13 for one scripted call. -/
